@@ -25,7 +25,8 @@ async def tagging_coercer(exception, error):
 async def mutating_coercer(exception, error):
     STATE["n"] += 1
     error["message"] = "mut:" + str(error.get("message"))
-    error.pop("extensions", None)
+    if isinstance(error.get("extensions"), dict):
+        error["extensions"]["touched_by_coercer"] = True       # the documented way of enriching an error, in place
     STATE["returned"].append(error)
     return error
 
@@ -73,6 +74,11 @@ def matrix_job(j):
                     resp = {"__raised__": repr(e)}
                 st["world"].case = None
                 mm = c16.check_entry(entry, resp, cs, doc) if cname == "default" else []
+                if cname in ("default", "tagging") and isinstance(resp, dict):
+                    for e in resp.get("errors") or []:
+                        ext = e.get("extensions") if isinstance(e, dict) else None
+                        if isinstance(ext, dict) and "touched_by_coercer" in ext:
+                            mm.append("an error reported through the %s coercer carries what another engine's coercer wrote into an earlier error: %r" % (cname, ext))
                 if cname != "default" and isinstance(resp, dict):
                     errs = resp.get("errors") or []
                     if STATE["n"] != len(errs):
